@@ -131,6 +131,8 @@ where
 
                 let agent = agent.clone();
 
+                #[cfg(feature = "verif")]
+                klukai_types::verif::pending_inc();
                 spawn_counted(
                     async move { broadcast_changes(agent, db_version, last_seq, ts).await },
                 );
